@@ -8,7 +8,7 @@ COMMON_ASSUME = [
 SOURCE_COMMITS = []
 
 PENDING = "check not built yet in this round (machinery under construction; see DESIGN.md section 4 for the planned generator and oracle)"
-NOT_APPLICABLE = {p: PENDING for p in ["C01","C02","C03","C04","C05","C06","C14","C15","C16","C17","C18","C19"]}
+NOT_APPLICABLE = {p: PENDING for p in ["C03","C04","C05","C06","C14","C16","C17","C18","C19"]}
 
 PROPS = {
     "C07": dict(
@@ -73,5 +73,35 @@ PROPS = {
         level_note="Trusted: the table/stream generators, the reference line splitter (LF-terminated lines are complete in truncated mode) and the relaxed JSON recogniser R. Higher-priority signatures are decided by calling the earlier siblings' detectors and are counted as excluded.",
         rule="fwd: rapid tables/streams; every limit in {0, len+1, len+7} U [end of 2nd complete record line .. len]; evaluations = (document, limit) pairs; non-trivial document = at least one cut inside a line / on the LF / between CR and LF / limit==len. neg: one ragged record (field added/removed) or one damaged NDJSON line (truncated value, trailing garbage, unbalanced, not JSON) with the limit keeping that line complete; non-trivial = damaged line is not the last line. txt: 1-16 pieces from a CSV/NDJSON-flavoured vocabulary, boundary-biased limits; non-trivial = some line-format check accepted the header. Distinct by hash(doc[,limit]).",
         assumptions=COMMON_ASSUME + ["records occupy one line (no embedded newlines), as the property states; the CSV line-count oracle is applied to quote-free headers only (quoted acceptances are counted, not judged)"],
+    ),
+    "C01": dict(
+        shards=dict(quick=8, thorough=16),
+        floor=dict(quick=20000, thorough=200000),
+        journal_is_violation=True,
+        fuzz=dict(target="FuzzVerif_C01", seconds=180, workers=16),
+        technique="rapid-generated and mutated headers (seed-and-mutate with hostile integers at length fields, structured zip/CRX/OLE/tar/TZif/ftyp/RIFF builders), exhaustive prefix truncation of every seed, and native coverage-guided fuzzing (thorough), with recover()-guarded calls on exact-capacity slices",
+        level_text="Exploration: every case runs all ~190 registered signature checks directly (on the examined header as an exact-capacity slice and on the full input), the three charset sniffers, the JSON scanner with all four queries, and Detect / DetectReader / DetectFile under the generated limit (any uint32 for Detect and direct calls). Every prefix of every seed header is enumerated; generated cases mutate seeds with hostile 32-bit values at the offsets where lengths are read. Crash freedom over all inputs cannot be established by testing; the thorough tier adds a coverage-guided campaign on the same target.",
+        level_note="Trusted: Go's bounds checking turns any out-of-range read into a panic (so 'never reads outside the bytes given' is observable only as 'no reslice beyond len on an exact-capacity slice'); termination is observed under a time budget (a hang is reported as inconclusive with the journaled input). DetectReader/DetectFile are exercised for limits <= 16 MiB because DetectReader allocates 'limit' bytes by design. 32-bit overflow is not executable here.",
+        rule="gen: rapid: random bytes <=64 | seed mutated by up to 5 ops (replace/insert/delete/truncate/hostile LE/BE uint32 at hot offsets/splice/tail/pad-to-boundary) | structured zip-local-header, CRX, OLE, tar, TZif, ftyp, RIFF builders with hostile sizes | text pieces; limit boundary-biased incl. 0, len, len+-1, 2^31, 2^32-1; 1 in 16 cases also through DetectFile. prefixes: every prefix of the 215 seed headers x 5 limits. Non-trivial = some non-root signature check accepts the header, or the truncated branch (0 < limit <= len) runs; distinct by hash(x,limit).",
+        assumptions=COMMON_ASSUME + ["a shard killed by a fatal runtime error is reported as a violation with the journaled case; a timeout is reported as inconclusive"],
+    ),
+    "C02": dict(
+        shards=dict(quick=4, thorough=16),
+        floor=dict(quick=5000, thorough=50000),
+        fuzz=dict(target="FuzzVerif_C02", seconds=120, workers=16),
+        technique="rapid-generated HTML/XML headers carrying hostile charset labels plus broad inputs through all entry points (incl. failing readers, missing files, directories), judged by a round-trip through mime.ParseMediaType and the registered-name set",
+        level_text="Exploration: strings synthesised at run time are the risk, so the generator concentrates on <meta charset>, http-equiv pragmas and XML declarations whose label is built from hostile pieces (quotes, separators, backslash, CR/LF/TAB, NUL, DEL, non-ASCII, invalid UTF-8, HTML entities decoding to such bytes, RFC 2231 look-alikes, 100-400 byte labels), BOM variants and the general input distribution, under boundary-biased limits and every entry point; each returned value is checked for parseability, registered type, parameter discipline, a finite parameter-free ancestor chain ending at application/octet-stream, and the exact error-path value.",
+        level_note="Trusted: mime.ParseMediaType as the definition of a valid media type string; the registered set is read once from the live tree.",
+        rule="rapid: html direct meta | html pragma | xml declaration with labels assembled from 52 hostile pieces or long repeats; BOM+text; broad inputs; entry in {Detect, DetectReader, failing reader at offset k, DetectFile on a temp file, missing path, directory}. Non-trivial = the reported charset value is not an RFC 2045 token (had to be quoted or RFC 2231-encoded) or an error path was taken; distinct by hash(doc,limit,entry,errAt).",
+        assumptions=COMMON_ASSUME,
+    ),
+    "C15": dict(
+        shards=dict(quick=4, thorough=16),
+        floor=dict(quick=5000, thorough=50000),
+        technique="rapid-generated decorations (case, white space, well-formed parameter lists) of every registered name and alias and of near-misses, against a normalise-and-compare reference; detection results from the hostile-label generator for the reflexive laws",
+        level_text="Exploration: (names) every registered type and alias is looked up and must Is() itself - complete for the tree; (dec) random (format, candidate name) pairs with random letter case, leading/trailing white space and 0-3 well-formed parameters with distinct keys are compared with the reference 'lower-cased candidate equals the format's type or one of its aliases', and EqualsAny with 'lower-cased names equal'; (results) detection results, including those carrying quoted or RFC 2231-encoded charset values, must satisfy d.Is(d.String()), EqualsAny(d.String(), d.String()) and Lookup(bare type).Is(d.String()). The family of spellings is unbounded, hence sampled.",
+        level_note="Trusted: the reference normalisation (ASCII lower-casing of generated token names); alias sets are read from the live tree.",
+        rule="names: all registered names/aliases (exhaustive for the tree). dec: rapid: node x (own name | other node's name | near-miss) decorated; non-trivial = decoration changed the string and added parameters or changed case. results: inputs from the C02 generator; non-trivial = result carries a parameter. Distinct by hash of the operands.",
+        assumptions=COMMON_ASSUME + ["parameters are well-formed with distinct keys, as the property states"],
     ),
 }
